@@ -264,12 +264,30 @@ impl Sandbox {
     pub fn new(tag: &str, ws_files: &[(String, Vec<u8>)]) -> Sandbox {
         let scratch = Scratch::new(tag);
         let base = scratch.path().to_path_buf();
-        let outer = base.join("outer");
-        let root = outer.join("ws");
-        let elsewhere = base.join("elsewhere");
+        let sb = Sandbox {
+            _scratch: scratch,
+            outer: base.join("outer"),
+            root: base.join("outer").join("ws"),
+            elsewhere: base.join("elsewhere"),
+            base,
+        };
+        sb.populate(ws_files);
+        sb
+    }
+
+    /// Wipe and rebuild the whole tree at the same location (used where an engine bound to this
+    /// root is kept across cases).
+    pub fn repopulate(&self, ws_files: &[(String, Vec<u8>)]) {
+        let _ = std::fs::remove_dir_all(&self.outer);
+        let _ = std::fs::remove_dir_all(&self.elsewhere);
+        self.populate(ws_files);
+    }
+
+    fn populate(&self, ws_files: &[(String, Vec<u8>)]) {
+        let (base, outer, root, elsewhere) = (&self.base, &self.outer, &self.root, &self.elsewhere);
         std::fs::create_dir_all(outer.join(".git")).expect("mkdir");
-        std::fs::create_dir_all(&root).expect("mkdir");
-        std::fs::create_dir_all(&elsewhere).expect("mkdir");
+        std::fs::create_dir_all(root).expect("mkdir");
+        std::fs::create_dir_all(elsewhere).expect("mkdir");
         for (rel, canary) in SENTINELS {
             let p = base.join(rel);
             std::fs::create_dir_all(p.parent().unwrap()).expect("mkdir");
@@ -298,13 +316,6 @@ impl Sandbox {
             }
             // names the file system refuses (too long, NUL…) are simply not created
             let _ = std::fs::write(&p, bytes);
-        }
-        Sandbox {
-            _scratch: scratch,
-            base,
-            outer,
-            root,
-            elsewhere,
         }
     }
 
@@ -573,4 +584,59 @@ pub fn store_dir(root: &Path) -> PathBuf {
 
 pub fn scratch_root() -> &'static Path {
     scratch::root()
+}
+
+// ------------------------------------------------------------------------------------------
+// ripd session engine (the real WorkspaceCheckpointHook, driven through input envelopes)
+// ------------------------------------------------------------------------------------------
+
+/// `ripd::SessionEngine` on its own current-thread runtime. One input per rig (a session takes
+/// exactly one input).
+pub struct SessionRig {
+    rt: tokio::runtime::Runtime,
+    engine: ripd::SessionEngine,
+}
+
+impl SessionRig {
+    pub fn new(root: &Path, data_dir: &Path) -> Result<SessionRig, String> {
+        cwd::detach_thread();
+        let rt = tokio::runtime::Builder::new_current_thread()
+            .enable_all()
+            .build()
+            .map_err(|e| e.to_string())?;
+        let engine = rt.block_on(async {
+            ripd::SessionEngine::new(data_dir.to_path_buf(), root.to_path_buf(), None)
+        })?;
+        Ok(SessionRig { rt, engine })
+    }
+
+    /// Send one input envelope, collect the session's frames up to `session_ended`.
+    /// `Err` = the session did not end within the wait (no verdict is drawn from that).
+    pub fn input(&self, input: String) -> Result<Vec<Event>, String> {
+        self.rt.block_on(async {
+            let handle = self.engine.create_session();
+            let mut rx = handle.subscribe();
+            self.engine.spawn_session(handle.clone(), input, None, None);
+            let mut events = Vec::new();
+            let deadline = tokio::time::sleep(std::time::Duration::from_secs(120));
+            tokio::pin!(deadline);
+            loop {
+                tokio::select! {
+                    r = rx.recv() => match r {
+                        Ok(ev) => {
+                            let end = matches!(ev.kind, EventKind::SessionEnded { .. });
+                            events.push(ev);
+                            if end {
+                                break;
+                            }
+                        }
+                        Err(tokio::sync::broadcast::error::RecvError::Lagged(_)) => continue,
+                        Err(tokio::sync::broadcast::error::RecvError::Closed) => break,
+                    },
+                    _ = &mut deadline => return Err("session did not end within the wait".to_string()),
+                }
+            }
+            Ok(events)
+        })
+    }
 }
